@@ -213,8 +213,18 @@ fn operand(bits: u32, sel: (u8, u16, [u64; 4])) -> (BigUint, bool) {
         5 => (p2, true),
         6 => (&p2 - BigUint::one(), true),
         7 => ((&p2 + BigUint::one()) & &max, true),
-        8 => (BigUint::from(3u8), false),
-        9 => (BigUint::from(10u8) & &max, false),
+        // boundaries of the narrower integer widths (conversion boundaries): 2^w - 1, 2^w, 2^w + 1 for w in 8 16 32 64 128
+        8 | 9 => {
+            let ws: Vec<u32> = [8u32, 16, 32, 64, 128].into_iter().filter(|w| *w <= bits).collect();
+            let w = ws[(k as usize) % ws.len()];
+            let base = BigUint::one() << w;
+            let v = match (k >> 4) % 3 {
+                0 => &base - BigUint::one(),
+                1 => base,
+                _ => base + BigUint::one(),
+            };
+            (v & &max, true)
+        }
         // perfect squares and their neighbours (sqrt boundaries)
         10 | 11 => {
             let half = BigUint::one() << (bits / 2);
@@ -270,7 +280,9 @@ pub fn num_eval(c: &NumCase) -> NumEval {
     let op = c.op as usize % ops.len();
     let name = ops[op].0;
     let bits = t.bits();
-    let (a, ba) = operand(bits, c.a);
+    // conversions get a width-boundary operand half of the time
+    let a_sel = if matches!(name, "narrow" | "try_as_u64" | "widen") && c.a.0 & 0x80 != 0 { (8u8, c.a.1, c.a.2) } else { c.a };
+    let (a, ba) = operand(bits, a_sel);
     let (mut b, bb) = operand(bits, c.b);
     if name == "log" && c.b.0 % 3 != 0 {
         // bases are mostly small
